@@ -469,10 +469,14 @@ func genAuthScenario(r *Rng, ver string) *AuthScenario {
 	}
 	// --- join rules
 	jr := ""
-	if r.Chance(75) {
+	pseudoAuth := ver == "org.matrix.msc4014" && r.Chance(50)
+	if r.Chance(75) || pseudoAuth {
 		jr = Pick(r, joinRules)
 		if coherent {
 			jr = Pick(r, joinRules[:5])
+		}
+		if pseudoAuth && r.Chance(70) {
+			jr = Pick(r, []string{"restricted", "knock_restricted"})
 		}
 		c := map[string]interface{}{"join_rule": jr}
 		if !coherent && r.Chance(3) {
@@ -498,6 +502,15 @@ func genAuthScenario(r *Rng, ver string) *AuthScenario {
 			if e := g.Mk(spec.MRoomMember, u, sp(u), c, nil, nil, nil); e != nil {
 				s.Auth = append(s.Auth, e)
 			}
+		}
+	}
+	if pseudoAuth {
+		// pseudo-ID rooms: an authoriser need not look like a user ID — `notauser` is a member there, and a restricted join
+		// naming it reads its membership, which StateNeededForAuth has to name (seeded change C09-r8m2)
+		m := Pick(r, []string{"join", "join", "join", "leave", "invite"})
+		mem["notauser"] = m
+		if e := g.Mk(spec.MRoomMember, "notauser", sp("notauser"), r.memberContent(m), nil, nil, nil); e != nil {
+			s.Auth = append(s.Auth, e)
 		}
 	}
 	sender := Pick(r, authUsers)
@@ -538,6 +551,9 @@ func genAuthScenario(r *Rng, ver string) *AuthScenario {
 		}
 		if newM == "join" && r.Chance(45) {
 			c[r.caseVariant("join_authorised_via_users_server")] = Pick(r, append([]string{"", "notauser", "@ghost:hs1"}, authUsers...))
+			if pseudoAuth && r.Chance(60) {
+				c["join_authorised_via_users_server"] = "notauser"
+			}
 		}
 		if r.Chance(2) {
 			for k := range c {
